@@ -95,7 +95,7 @@ func implURL(target string) urlImpl {
 	location.Scheme = "http"
 	location.Host = "127.0.0.1:1"
 	location.Path = u.Path
-	location.RawPath = locationRawPath(u.RawPath) // the real escapeInvalidPathBytes (escape_shim.go)
+	location.RawPath = locationRawPath(u.RawPath) // copied too (escape_copy.go)
 	location.RawQuery = u.Query().Encode()
 	o.Query = rig.Hex(location.RawQuery)
 	// real: NewUpgradeAwareHandler -> normalizeLocation
@@ -145,10 +145,6 @@ func runURL(c *rig.Ctx, target string, record bool) bool {
 	}
 	if m.Out == nil {
 		return fail("diff", "c04.url.accept", "net/url accepts a target the model refuses")
-	}
-	if !haveEscapeShim && !m.Valid {
-		c.Count("url:no-escape-shim")
-		return true
 	}
 	if *impl.Out != *m.Out || deref(impl.Path) != deref(m.Path) || deref(impl.RawPath) != deref(m.RawPath) || impl.Query != m.Query {
 		return fail("diff", "c04.url.out", fmt.Sprintf("model %q, code %q", rig.UnHex(deref(m.Out)), rig.UnHex(*impl.Out)))
